@@ -616,8 +616,8 @@ def recovery_stage(prop, tier, depth_tag, oracles, crash=False):
                     nj["clean"] = clean
                     d2 = bool(crash and clean and j.get("_depth2"))
                     nj.pop("_depth2", None)
-                    if j["scen"]["max"] > 1 and tier == "quick":
-                        nj["mode"] = "delay"   # recovery of two-in-flight scenarios: delay bound 1 in the quick tier
+                    if (j["scen"]["max"] > 1 or j["scen"]["graph"] in ("g7", "g4", "g6")) and tier == "quick":
+                        nj["mode"] = "delay"   # recovery of two-in-flight / wide scenarios: delay bound 1 in the quick tier
                         nj["delay"] = 1
                     else:
                         nj["mode"] = "dpor"
